@@ -467,3 +467,110 @@ def _r2_function(ctx: Ctx, d: Driver, R: str, f: FuncInfo, ret_ann: str) -> None
             ctx.unk(R, f, ev.node, 'returned value involves an unresolved or caller-supplied array', key=key)
         else:
             ctx.ok(R, f, ev.node, 'returned array is read-only on every path', key=key)
+
+
+# ---------------------------------------------------------------------------------------
+# NumPy functions that hand back a new, writable ndarray whenever an argument is array-like
+NP_ALLOCATING = ('searchsorted', 'array', 'empty', 'empty_like', 'full', 'full_like', 'zeros', 'ones', 'arange', 'concatenate', 'where', 'nonzero', 'flatnonzero',
+                 'argsort', 'sort', 'unique', 'cumsum', 'cumprod', 'isin', 'in1d', 'logical_and', 'logical_or', 'logical_not', 'tile', 'repeat', 'roll', 'hstack', 'vstack',
+                 'column_stack', 'intersect1d', 'union1d', 'setdiff1d', 'fromiter', 'take', 'diff', 'dot', 'matmul', 'isnan', 'isnat', 'copy', 'astype')
+
+
+def r7_fresh_returns(ctx: Ctx) -> None:
+    R = 'A-R7.fresh-array-return-frozen'
+    ctx.rule(R, 'a public method that hands out an array it has just made hands it out read-only: a return whose value is a direct NumPy allocation (`np.searchsorted(...)` '
+             'on array-like needles, ...), a fancy-indexed copy (`<array>[K]` where the method itself treats K as an array: stores into it or takes len of it), or a '
+             'local bound to one of those, is preceded on that path by `<name>.flags.writeable = False`; the Index-family `_ufunc_axis_skipna`, whose result '
+             'IndexBase._ufunc_shape_skipna returns unchanged from cumsum / cumprod, freezes an array result like its IndexHierarchy sibling does', floor=6)
+    prog = ctx.prog
+    seen: tp.Set[str] = set()
+    n = 0
+    for cname in PUBLIC_CLASSES:
+        k = prog.cls(cname)
+        for b in k.mro:
+            if b.name in ('ContainerBase',):
+                continue
+            for defs in b.method_defs.values():
+                for f in defs:
+                    if f.qualname in seen:
+                        continue
+                    seen.add(f.qualname)
+                    nm = f.name
+                    axis_helper = nm == '_ufunc_axis_skipna' and b.name in ('Index', 'IndexHierarchy', 'IndexBase')
+                    if nm.startswith('_') and not (nm.startswith('__') and nm.endswith('__')) and not axis_helper:
+                        continue
+                    if isinstance(f.node, ast.Lambda) or f.is_generator():
+                        continue
+                    # names the method itself treats as arrays
+                    arrayish = {s.targets[0].value.id for s in walk_local(f.node) if isinstance(s, ast.Assign) and isinstance(s.targets[0], ast.Subscript)
+                                and isinstance(s.targets[0].value, ast.Name)}
+                    arrayish |= {c.args[0].id for c in walk_local(f.node) if isinstance(c, ast.Call) and call_name(c) == 'len' and c.args and isinstance(c.args[0], ast.Name)}
+                    arrayish -= set(f.params)
+
+                    def fresh(e: tp.Optional[ast.expr]) -> tp.Optional[str]:
+                        if isinstance(e, ast.Call) and isinstance(e.func, ast.Attribute) and isinstance(e.func.value, ast.Name) and e.func.value.id == 'np' \
+                                and e.func.attr in NP_ALLOCATING:
+                            return f'np.{e.func.attr}(...) allocates a new writable array'
+                        if isinstance(e, ast.Subscript) and isinstance(e.slice, ast.Name) and e.slice.id in arrayish \
+                                and not (isinstance(e.value, ast.Attribute) and e.value.attr in ('iloc', 'loc')):
+                            return f'`{norm(e)[:40]}` indexes with `{e.slice.id}`, which this method treats as an array: the result is a writable copy'
+                        if axis_helper and isinstance(e, ast.Call) and call_name(e) in ('ufunc_axis_skipna', 'ufunc', 'ufunc_skipna'):
+                            return f'`{call_name(e)}(...)` returns what the ufunc produced (an array for cumsum / cumprod)'
+                        return None
+
+                    for r in walk_local(f.node):
+                        if not (isinstance(r, ast.Return) and r.value is not None):
+                            continue
+                        v = r.value
+                        why = fresh(v)
+                        key = f'{b.name}.{nm}:{norm(r)[:70]}'
+                        if why is not None:
+                            n += 1
+                            ctx.bad(R, f, r, f'{why}, and it is returned as it is: the caller can write into what the API handed out', key=key)
+                            continue
+                        if isinstance(v, ast.Name):
+                            defs_v = [a for a in walk_local(f.node) if isinstance(a, ast.Assign) and any(isinstance(t, ast.Name) and t.id == v.id for t in a.targets) and a.lineno < r.lineno]
+                            whys = [fresh(a.value) for a in defs_v]
+                            if not any(whys):
+                                continue
+                            n += 1
+                            last_def = max(a.lineno for a in defs_v)
+                            frz = [s for s in walk_local(f.node) if isinstance(s, ast.Assign) and norm(s.targets[0]) == f'{v.id}.flags.writeable' and isinstance(s.value, ast.Constant)
+                                   and s.value.value is False and last_def <= s.lineno < r.lineno]
+                            # a freeze inside a branch that does not enclose the return only counts when it tests that the value is an array
+                            ok = False
+                            for s in frz:
+                                encl = [i for i, _p in _enclosing_tests_of(f.node, s)]
+                                encl_r = [i for i, _p in _enclosing_tests_of(f.node, r)]
+                                extra = [i for i in encl if i not in encl_r]
+                                if not extra or all('ndarray' in norm(i.test) or '.ndim' in norm(i.test) for i in extra):
+                                    ok = True
+                            if ok:
+                                ctx.ok(R, f, r, f'`{v.id}` is frozen before it is returned', key=key)
+                            else:
+                                ctx.bad(R, f, r, f'`{v.id}` ({next(w for w in whys if w)}) is returned without `{v.id}.flags.writeable = False` on this path', key=key)
+    ctx.require(n >= 6, 'fresh arrays returned by public methods')
+
+
+def _enclosing_tests_of(root: ast.AST, target: ast.AST) -> tp.List[tp.Tuple[ast.If, bool]]:
+    out: tp.List[tp.Tuple[ast.If, bool]] = []
+
+    def rec(node: ast.AST) -> bool:
+        if node is target:
+            return True
+        if isinstance(node, ast.If):
+            for s in node.body:
+                if rec(s):
+                    out.insert(0, (node, True))
+                    return True
+            for s in node.orelse:
+                if rec(s):
+                    out.insert(0, (node, False))
+                    return True
+            return False
+        for ch in ast.iter_child_nodes(node):
+            if rec(ch):
+                return True
+        return False
+    rec(root)
+    return out
